@@ -1,6 +1,6 @@
 SPECIFICATION Spec
 CONSTANTS FRAG = 3
-  Runs = { "s_leaf", "s_ids6", "s_idsb4", "s_mid_a3", "s_mid_b3", "s_top3", "s_top_h" }
+  Runs = { "s_leaf", "s_ids6", "s_idsb4", "s_mid_a3", "s_mid_b3", "s_top3", "s_top_h", "s_mid_e", "s_top_e" }
 CONSTANT SchemaSource = "toy"
 INVARIANT StructRoundTrip
 INVARIANT Canonical
